@@ -431,7 +431,11 @@ func c16Run(r *core.Run) {
 	yields := 0
 	lastSite, prevSite := "", ""
 	siteSteps := map[string][]int{} // static site -> the dynamic yield indices at which it executed
+	// the hooks take a lock: a goroutine started by the code under test may run through yield points too
+	var hookMu sync.Mutex
 	counting := func(site string) {
+		hookMu.Lock()
+		defer hookMu.Unlock()
 		yields++
 		prevSite, lastSite = lastSite, site
 		if l := siteSteps[site]; len(l) < 64 {
@@ -525,9 +529,12 @@ func c16Run(r *core.Run) {
 		}
 	}
 	c16SetHook(func(site string) {
+		hookMu.Lock()
 		step++
 		lastSite = site
-		if changes[step] {
+		hit := changes[step]
+		hookMu.Unlock()
+		if hit {
 			r.Probe("switch_at_instrumented_yield")
 			if strings.Contains(site, "verifyHash256") {
 				r.Probe("switch_inside_verifyHash256")
@@ -546,6 +553,10 @@ func c16Run(r *core.Run) {
 		})
 	}
 	sched.Run()
+	if sched.Foreign > 0 {
+		// goroutines started by the code under test ran through yield points outside the scheduler's control
+		r.Count("yield_points_reached_by_foreign_goroutines(schedule_not_exactly_replayable)", int64(sched.Foreign))
+	}
 	c16SetHook(nil)
 	sched = nil
 	r.Fault("sched:preemption_at_yield_point", len(switchLog) > K)
